@@ -28,6 +28,32 @@ def ident(node):
     return type(node).__name__
 
 
+OPAQUE = {"STRING", "COMMENT", "FSTRING_MIDDLE"}
+
+
+def export_tokens(text, toks):
+    """[gap text before the token, the token's own text (source slice for strings / f-string literal parts / comments), opaque?, row, col] -
+    gaps and slices are cut from the source text here, independently of the library"""
+    import tokenize
+    rows = text.splitlines(keepends=True)
+
+    def between(a, b):
+        if a >= b:
+            return ""
+        if a[0] == b[0]:
+            return rows[a[0] - 1][a[1]:b[1]] if a[0] <= len(rows) else ""
+        out = [rows[a[0] - 1][a[1]:] if a[0] <= len(rows) else ""]
+        out += [rows[r - 1] for r in range(a[0] + 1, b[0]) if r <= len(rows)]
+        out.append(rows[b[0] - 1][:b[1]] if b[0] <= len(rows) else "")
+        return "".join(out)
+    out, prev = [], (1, 0)
+    for t in toks:
+        opaque = tokenize.tok_name[t.type] in OPAQUE
+        out.append([between(prev, t.start), between(t.start, t.end) if opaque else t.string, opaque, t.start[0], t.start[1]])
+        prev = t.end
+    return out
+
+
 def run_case(case, ci):
     specs = [AugmentationSpec(KIND[s["kind"]], s["token"], s["repl"]) for s in case["specs"]]
     res = {"passes": []}
@@ -37,7 +63,7 @@ def run_case(case, ci):
     for sp in specs:
         toks = list(itertools.chain(*make_tokens_by_line(text.splitlines(keepends=True))))
         out, positions = replace_tokens_and_get_augmented_positions(toks, sp)
-        res["passes"].append({"tokens": [[t.string, t.start[0], t.start[1], t.end[0], t.end[1]] for t in toks], "out": out,
+        res["passes"].append({"tokens": export_tokens(text, toks), "out": out,
                               "positions": [list(p) for p in positions]})
         pos_by_spec[sp] = set(positions)
         text = out
